@@ -378,6 +378,36 @@ def main():
     w(f"def HP_INVERT_NEG : Int := {m.group(2)}")
     w("")
 
+    # ---- lazily initialised option masks (C17): `static ref NAME: PictureOption = A | B | ...;` -------------------
+    tsrc = strip_comments(read("h263/src/types.rs"))
+    flag_vals = {}
+    bm = re.search(r"pub\s+struct\s+PictureOption\s*:\s*u32\s*\{(.*?)\n    \}", tsrc, re.S)
+    if not bm:
+        raise TranslateError("h263/src/types.rs: bitflags PictureOption not found")
+    for fm in re.finditer(r"const\s+(\w+)\s*=\s*(0b[01_]+|0x[0-9a-fA-F_]+|\d+)\s*;", bm.group(1)):
+        flag_vals[fm.group(1)] = int(fm.group(2).replace("_", ""), 0)
+    masks = []
+    for relm in ("h263/src/types.rs", "h263/src/parser/picture.rs"):
+        msrc = strip_comments(read(relm))
+        for lm in re.finditer(r"lazy_static!\s*\{(.*?)\n\}", msrc, re.S):
+            for sm in re.finditer(r"static\s+ref\s+(\w+)\s*:\s*([\w:]+)\s*=\s*([^;]*);", lm.group(1)):
+                val = 0
+                for term in sm.group(3).split("|"):
+                    term = term.strip()
+                    tm = re.fullmatch(r"PictureOption::(\w+)", term)
+                    if not tm or tm.group(1) not in flag_vals:
+                        raise TranslateError(f"{relm}: lazy static {sm.group(1)}: initialiser term {term!r} is not a constant PictureOption flag")
+                    val |= flag_vals[tm.group(1)]
+                masks.append((relm, sm.group(1), val))
+    w("/-- every lazily initialised static: (file, name, value of its constant initialiser) -/")
+    w("def LAZY_MASKS : List (String × String × Nat) := [")
+    w(",\n".join(f'  ("{a}", "{b}", {c})' for a, b, c in masks))
+    w("]")
+    w("def PICTURE_OPTION_FLAGS : List (String × Nat) := [")
+    w(",\n".join(f'  ("{a}", {b})' for a, b in flag_vals.items()))
+    w("]")
+    w("")
+
     # ---- structural scan (C17 / C01 modelling assumptions) ---------------------------------
     scan = []
     pat = re.compile(r"\b(static\s+mut\b|thread_local!|lazy_static!|OnceLock\b|OnceCell\b|LazyLock\b|LazyCell\b|RefCell\b|Cell<|Atomic[A-Z]\w*|Mutex\b|RwLock\b|unsafe\b|static\s+ref\b)")
